@@ -829,6 +829,40 @@ def run_sched_case(P, tmp, schedule=None):
             finally:
                 c.close()
             return out
+        twin = None
+        if P.get('twin'):
+            # a second, independent FileStorage + DB in the same process, packed and committed to at the same
+            # time (class-level state shared between instances would show here)
+            os.makedirs(os.path.join(root, 'twin'))
+            tfs, tdb, tinfo = build_db(os.path.join(root, 'twin', 'Data.fs'),
+                                       dict(keep_old=not P.get('keep_old', True), pre=2, post=1), clk)
+            twin = dict(fs=tfs, db=tdb, t=tinfo['t_mid'], returned=[])
+
+            def twin_packer():
+                try:
+                    tdb.pack(twin['t'])
+                    return 'ok'
+                except Exception as e:          # noqa: B902
+                    return 'raised:%s:%s' % (type(e).__name__, e)
+
+            def twin_committer():
+                tm = transaction.TransactionManager()
+                c = tdb.open(tm)
+                out = []
+                for i in range(2):
+                    try:
+                        tm.begin()
+                        r = c.root()
+                        r['A1']['v'] = r['B1']['v'] = 7000 + i
+                        r['C1']['n'] = i + 1
+                        tm.commit()
+                        twin['returned'].append((r['C1']._p_serial, i + 1))
+                        out.append('ok')
+                    except Exception as e:      # noqa: B902
+                        tm.abort()
+                        out.append('raised:%s:%s' % (type(e).__name__, e))
+                c.close()
+                return out
         _READ_YIELD[0] = bool(P.get('read_yield'))
         policy = None
         crole = fs._commit_lock.role
@@ -875,6 +909,9 @@ def run_sched_case(P, tmp, schedule=None):
             s.spawn('k', k_committer(fs, template, int(P['kcommit']), P.get('pad', 0) >= 3000, kdone))
         if hist_at is not None:
             s.spawn('h', hist_reader)
+        if twin is not None:
+            s.spawn('p2', twin_packer)
+            s.spawn('d1', twin_committer)
         try:
             res = s.run(timeout=60)
         finally:
@@ -909,6 +946,21 @@ def run_sched_case(P, tmp, schedule=None):
                         if tuple(o) != want if not isinstance(o, str) else True:
                             extras.append(('historical-reader', 'a historical connection after the pack time read %r, '
                                            'expected %r' % (o, want)))
+                if twin is not None:
+                    if res['results'].get('p2') != 'ok':
+                        extras.append(('twin-pack-error', 'the pack of a second storage in the same process: %r'
+                                       % (res['results'].get('p2'),)))
+                    for o in (res['results'].get('d1') or ['missing']):
+                        if o != 'ok':
+                            extras.append(('twin-commit-error', 'commit to the second storage: %s' % o))
+                    td = txn_dump(twin['fs'])
+                    for tid, n in twin['returned']:
+                        if tid not in [x[0] for x in td]:
+                            extras.append(('twin-lost-commit', 'a commit to the second storage is not stored'))
+                    e = index_vs_log(twin['fs'], td)
+                    if e:
+                        extras.append(('twin-index-inconsistent', e))
+                    twin['db'].close()
                 obs['api_calls'] = len(api_out)
                 obs['ktids'] = [k[0].hex() for k in kdone]
                 problems = extras + verify_sched(obs, fs, db, path, P, tmp)
@@ -934,7 +986,7 @@ def verify_sched(obs, fs, db, path, P, tmp):
     owner = None
     crole = obs['roles']['commit']
     for th, kind, label in obs['events']:
-        if label != crole:
+        if label != crole or th in ('p2', 'd1'):        # (the twin storage's locks carry the same role name)
             continue
         if kind == 'acquired':
             if owner is not None and owner != th:
@@ -2433,7 +2485,7 @@ def run_close_case(P, tmp, schedule=None):
         s.spawn('p', packer)
         s.spawn('c1', committer)
         s.spawn('z', closer)
-        res = s.run(timeout=60)
+        res = s.run(timeout=5)      # (threads may block for real on a closed storage: not judged)
         rec.on_event = None
         note.s = None
         obs.update(deadlock=bool(res['deadlock']), results=res['results'], steps=res['steps'],
@@ -2529,6 +2581,8 @@ def gen_sched_params(rng, i):
         P['kcommit'] = rng.choice([3, 5, 6])
         if P.get('pad', 0) < 3000 and rng.random() < 0.5:
             P['pad'] = 3000     # makes the storage-level committer write a record larger than 64 KiB
+    if i % 6 == 5 and not P.get('directed'):
+        P['twin'] = 1
     if i % 7 == 6:
         P['pad'] = 70000        # DB-level commits larger than 64 KiB during copyRest (utils.cp chunking)
     return P
@@ -2873,11 +2927,25 @@ def run_script_case(ck, case):
 def run_case(ck, case):
     """run one case; an exception of the real code escaping from a scenario (set-up pack, close, …) is
     reported as a violation with the case as replay, never as a harness crash"""
+    import signal
     import traceback
+
+    class CaseTimeout(Exception):
+        pass
+
+    def on_alarm(signum, frame):
+        raise CaseTimeout()
+    timed = threading.current_thread() is threading.main_thread() and hasattr(signal, 'SIGALRM')
+    if timed:       # a blocked step (leaked lock in a sequential scenario) becomes a verdict, not a hang
+        old_handler = signal.signal(signal.SIGALRM, on_alarm)
+        signal.alarm(600 if case.get('thorough') else 180)
     try:
         _run_case(ck, case)
     except InfraError:
         raise
+    except CaseTimeout:
+        ck.violation('C08:%s:timeout' % case['kind'], 'the case did not finish within its time limit (a step '
+                     'blocks: leaked lock?)', case)
     except Exception as e:          # noqa: B902
         try:
             transaction.abort()
@@ -2889,6 +2957,10 @@ def run_case(ck, case):
                      'the scenario raised %s: %s (%s)' % (type(e).__name__, e, (
                          '%s:%d' % (os.path.basename(where[-1].filename), where[-1].lineno)) if where else
                          'harness'), case)
+    finally:
+        if timed:
+            signal.alarm(0)
+            signal.signal(signal.SIGALRM, old_handler)
 
 
 def _run_case(ck, case):
@@ -2956,6 +3028,7 @@ def main(argv=None):
                   for ko in (True, False) for g in ((0, 1) if ck.thorough else (ko,))]
         cases += [dict(kind='prepack', P=dict(kind=kd, pre=pre, after=2, close_first=cf))
                   for kd in ('mvccmapping', 'mapping', 'file') for pre in (1, 3) for cf in (0, 1)]
+        cases += [dict(kind='close', P=gen_close_params(ck.rng, i)) for i in range(16 if not ck.thorough else 400)]
         nmap = 60 if not ck.thorough else 1500
         cases += [dict(kind='mapping', P=gen_mapping_params(ck.rng, i)) for i in range(nmap)]
         cases += [dict(kind='mapping', mode='callback', P=dict(ptime=pt, pre=pre, at=at))
